@@ -328,3 +328,37 @@ contract(Contract(
     canaries=[('dest = _link_destination(element.dest, link_title is not None)', 'dest = _link_destination(element.dest.strip(), link_title is not None)', None, ["post[inline_form"]),
               ('return f"[{link_text}][{label}]"', 'return f"[{label}][{link_text}]"', None, ["post[reference_form"])],
 ))
+
+
+# ---- table rows (round 12): every cell of the row is written, once, in order, between the pipes
+def _render_cell_uf(ex, node, args, kwargs):
+    """self.render(cell) as an uninterpreted function of the cell (the renderer object itself is not an argument of it)"""
+    cell = ex.z(args[-1])       # the code's call carries the bound renderer first; a clause's call('self.render', cell) only the cell
+    f = ex.th.uf("uf!rendered_cell", cell.sort(), ex.th.Str)
+    return ex.wrap(f(cell), "str")
+
+
+contract(Contract(
+    target=N + "render_table_row",
+    props=["C01", "C02", "C12"],
+    assumes=["self.render(cell) is an uninterpreted function of the cell here (its own contract is render_table_cell); "
+             "TableRowEl.children is Marko's list of the row's cells"],
+    params={"element": "ref:TableRowEl"},
+    self_cls="MarkdownNormalizer",
+    setup=self_setup,
+    calls={"self.render": Callee("custom", handler=_render_cell_uf),
+           "TableRowEl.children": Callee("attr", ret="list[ref:Element]")},
+    ensures={
+        # the strings joined (`_comp0`: the list the code's generator expression produced) are the rendered cells: one per
+        # cell of the row, in the row's order, none dropped ...
+        "all_cells_in_order": "len(_comp0) == len(element.children)"
+                              " and all(_comp0[k] == call('self.render', element.children[k]) for k in range(len(element.children)))",
+        # ... and the row is exactly those, ' | ' between them, inside one pipe at either end
+        "row_is_the_joined_cells_between_pipes": "result == '| ' + joinr(' | ', _comp0, 0, len(_comp0)) + ' |\\n'",
+    },
+    canaries=[
+        ("for cell in element.children)", "for cell in element.children[:-1])", None, ["all_cells_in_order"]),
+        ("' | '.join(", "'|'.join(", None, ["post[row_is"]),
+        ('} |\\n"', '}|\\n"', None, ["post[row_is"]),
+    ],
+))
